@@ -9,6 +9,8 @@ import (
 	"go/token"
 	"go/types"
 	"strings"
+
+	"golang.org/x/tools/go/cfg"
 )
 
 func init() {
@@ -1326,4 +1328,184 @@ func nextStmt(list []ast.Stmt, i int) ast.Stmt {
 		return list[i+1]
 	}
 	return nil
+}
+
+// ---- C02.R9 / C01.R16: values that live in memory; `+=` on strings -----------------------------------------
+
+func init() {
+	lateInits = append(lateInits, func() {
+		props["C02"].Quick = append(props["C02"].Quick, c02R9)
+		props["C18"].Quick = append(props["C18"].Quick, c02R9)
+		props["C02"].Explanation += " (R9) in the QBE emitter every scalar load of an instruction's value type (loadOp(T) outside emitLoad) lies on the false edge of a needsByRefType(T) test, as the wasm emitter's loadOpcode calls lie behind isAddressValueType: a value that lives in memory is denoted by its address in both back ends."
+		props["C01"].Quick = append(props["C01"].Quick, c01R16)
+		props["C09"].Quick = append(props["C09"].Quick, c01R16)
+		props["C01"].Explanation += " (R16) the operator of a compound assignment (assignTokenToBinary) reaches emitBinary only in a function that first dispatches `+` on a string to emitStringConcat, as the BinaryExpr case of lowerExpr does."
+	})
+}
+
+func c02R9(c *Ctx, r *Report) {
+	const rule = "C02.R9"
+	r.Describe(rule, "QBE: every call loadOp(T) outside emitLoad/loadOp is reachable only across the false edge of `needsByRefType(T)` (directly or through a variable initialised from it); wasm: every loadOpcode(T) outside emitLoad likewise behind isAddressValueType(T)")
+	type side struct {
+		pkg, load, test, exempt string
+	}
+	n := 0
+	for _, sd := range []side{{pkgQBE, "(*Generator).loadOp", "(*Generator).needsByRefType", "emitLoad"}, {pkgWasm, "loadOpcode", "(*Generator).isAddressValueType", "emitLoad"}} {
+		load := c.LookupFn(sd.pkg, sd.load)
+		test := c.LookupFn(sd.pkg, sd.test)
+		if !r.Anchor(rule, load != nil && test != nil, sd.pkg+" "+sd.load+" / "+sd.test) {
+			continue
+		}
+		for _, fn := range c.AllFns(sd.pkg) {
+			if fn.Obj == load.Obj || fn.Obj.Name() == sd.exempt {
+				continue
+			}
+			info := fn.Info()
+			for _, call := range callsIn(fn.Decl.Body, false) {
+				if !isCallTo(info, call, load.Obj) || len(call.Args) != 1 {
+					continue
+				}
+				n++
+				arg := exprStr(call.Args[0])
+				// variables initialised from test(arg)
+				flag := map[types.Object]bool{}
+				ast.Inspect(fn.Decl.Body, func(x ast.Node) bool {
+					if as, ok := x.(*ast.AssignStmt); ok && as.Tok == token.DEFINE && len(as.Lhs) == 1 && len(as.Rhs) == 1 {
+						if cl, ok := as.Rhs[0].(*ast.CallExpr); ok && isCallTo(info, cl, test.Obj) && len(cl.Args) == 1 && exprStr(cl.Args[0]) == arg {
+							flag[info.Defs[as.Lhs[0].(*ast.Ident)]] = true
+						}
+					}
+					return true
+				})
+				isTest := func(e ast.Expr) bool {
+					e = ast.Unparen(e)
+					if cl, ok := e.(*ast.CallExpr); ok && isCallTo(info, cl, test.Obj) && len(cl.Args) == 1 && exprStr(cl.Args[0]) == arg {
+						return true
+					}
+					if id, ok := e.(*ast.Ident); ok && flag[info.Uses[id]] {
+						return true
+					}
+					return false
+				}
+				hits := mustFlow(c.CFG(fn), FlowSpec{
+					Gate: func(ast.Node) bool { return false },
+					EdgeGate: func(b *cfg.Block, succ int) bool {
+						cond := condOf(b)
+						return cond != nil && succ == 1 && isTest(cond)
+					},
+					Target: func(nd ast.Node) bool {
+						found := false
+						inspectShallow(nd, func(x ast.Node) bool {
+							if x == ast.Node(call) {
+								found = true
+							}
+							return !found
+						})
+						return found
+					},
+				})
+				r.Check(len(hits) == 0, rule, fn.Name(), "scalar load of "+arg+" only when it is not a by-reference type", c.pos(call.Pos()),
+					"a value whose type lives in memory (struct, fixed array, 128/256-bit number) reaches a scalar load: the native compiler stops with `unsupported load type` (or loads 8 bytes of it) where the other back end hands on the address — `a[0] += 9` on a []i128 built for wasm but not natively")
+			}
+		}
+	}
+	r.Floor(rule, n, 8, "scalar loads of an instruction's value type")
+}
+
+func c01R16(c *Ctx, r *Report) {
+	const rule = "C01.R16"
+	r.Describe(rule, "mir/gen: a function that turns a compound-assignment token into a binary operator (assignTokenToBinary) and emits it (emitBinary) has, on every path to that emitBinary, crossed the false edge of a test `op == PLUS && <type is string>` whose true branch returns emitStringConcat")
+	a2b := c.LookupFn(pkgMIRGen, "assignTokenToBinary")
+	emitBin := c.LookupFn(pkgMIRGen, "(*functionBuilder).emitBinary")
+	concat := c.LookupFn(pkgMIRGen, "(*functionBuilder).emitStringConcat")
+	if !r.Anchor(rule, a2b != nil && emitBin != nil && concat != nil, "mir/gen assignTokenToBinary / emitBinary / emitStringConcat") {
+		return
+	}
+	n := 0
+	for _, fn := range c.AllFns(pkgMIRGen) {
+		info := fn.Info()
+		if fn.Obj == a2b.Obj {
+			continue
+		}
+		// operator variables defined from assignTokenToBinary
+		ops := map[types.Object]bool{}
+		ast.Inspect(fn.Decl.Body, func(x ast.Node) bool {
+			if as, ok := x.(*ast.AssignStmt); ok && len(as.Lhs) == 1 && len(as.Rhs) == 1 {
+				if cl, ok := as.Rhs[0].(*ast.CallExpr); ok && isCallTo(info, cl, a2b.Obj) {
+					if o := objOf(info, as.Lhs[0]); o != nil {
+						ops[o] = true
+					}
+				}
+			}
+			return true
+		})
+		if len(ops) == 0 {
+			continue
+		}
+		for _, call := range callsIn(fn.Decl.Body, false) {
+			if !isCallTo(info, call, emitBin.Obj) || len(call.Args) < 1 || !ops[objOf(info, call.Args[0])] {
+				continue
+			}
+			n++
+			opObj := objOf(info, call.Args[0])
+			// the dispatching condition: a conjunction with `op == tokens.PLUS_TOKEN` whose if-body returns emitStringConcat(...)
+			disp := map[ast.Expr]bool{}
+			ast.Inspect(fn.Decl.Body, func(x ast.Node) bool {
+				ifs, ok := x.(*ast.IfStmt)
+				if !ok {
+					return true
+				}
+				plus := false
+				for _, cj := range conjuncts(ifs.Cond) {
+					if be, ok := isBinOp(cj, token.EQL); ok && objOf(info, be.X) == opObj && strings.HasSuffix(exprStr(be.Y), "PLUS_TOKEN") {
+						plus = true
+					}
+				}
+				if !plus || len(conjuncts(ifs.Cond)) < 2 || len(ifs.Body.List) == 0 {
+					return true
+				}
+				if ret, ok := ifs.Body.List[len(ifs.Body.List)-1].(*ast.ReturnStmt); ok && len(ret.Results) == 1 {
+					if cl, ok := ret.Results[0].(*ast.CallExpr); ok && isCallTo(info, cl, concat.Obj) {
+						disp[ifs.Cond] = true
+					}
+				}
+				return true
+			})
+			hits := mustFlow(c.CFG(fn), FlowSpec{
+				Gate: func(ast.Node) bool { return false },
+				EdgeGate: func(b *cfg.Block, succ int) bool {
+					// short-circuit conditions are split over blocks: any false edge out of a block whose
+					// condition belongs to a dispatching `if`
+					cond := condOf(b)
+					if cond == nil || succ != 1 {
+						return false
+					}
+					for d := range disp {
+						if d == cond {
+							return true
+						}
+						for _, cj := range conjuncts(d) {
+							if cj == cond {
+								return true
+							}
+						}
+					}
+					return false
+				},
+				Target: func(nd ast.Node) bool {
+					found := false
+					inspectShallow(nd, func(x ast.Node) bool {
+						if x == ast.Node(call) {
+							found = true
+						}
+						return !found
+					})
+					return found
+				},
+			})
+			r.Check(len(hits) == 0, rule, fn.Name(), "`+=` on a string is a concatenation", c.pos(call.Pos()),
+				"the operator of a compound assignment is emitted as a machine operation without asking whether the target is a string: `s += \"cd\"` adds two pointers (QBE rejects the program, or the element store writes a wild pointer and the program crashes) where `s = s + \"cd\"` concatenates")
+		}
+	}
+	r.Floor(rule, n, 1, "compound-assignment operators emitted")
 }
